@@ -60,6 +60,25 @@ unequal modes       sub-check `qtt_shapes`: optima_qtt on power-of-two mode size
                     [8,4,8], [4,4,8], ..., d = 2, 3 (thorough: up to 5)).  Documented outcome: ValueError.  Asserted: the
                     call raises ValueError, or it returns and the validity clause holds (integer indices of length d inside
                     the bounds, values = entries, y_min <= y_max, inputs untouched); any other exception is a violation.
+long chains         sub-check `long`: d = 8..150 (thorough 200) modes of size 1..4, candidate counts 1..20 (always k << size), the overall
+                    magnitude 1e-303..1e+303 spread over the cores (10**(x/d) or 2**e_k per core, one core, random / ramp / zigzag
+                    paths of per-core exponents whose partial sums stay within 303 decades).  Dense enumeration is impossible; the
+                    max-modulus element is known BY CONSTRUCTION: (a) rank 1: the product of the per-mode maxima of |G_k| (the
+                    property's "every rank-1 tensor with any candidate count" clause); (b) rank 1 except for a segment of 2..3
+                    cores of rank 2 holding T = a_1 x .. x a_m + amp*e_p with ||a_1 x .. x a_m||_F = 1, |amp| >= 3: then
+                    |Y| = |L|*|T|*|R| with separable L, R, and for every partial index the sub-tensor norm is maximal on the
+                    prefix of (argmax L, p, argmax R) by a factor >= 2 inside the segment (|T[p]| >= 2 >= 2*||T - T[p]e_p||_F),
+                    so the beam of the anchor (k rows of largest sub-tensor norm) never prunes it for any k >= 1, in either
+                    direction.  Asserted: index validity; |Y[i]|/max|Y| >= 1 - tol for optima_tt_beam (both sweeps),
+                    optima_tt_max and the larger member of optima_tt's pair, the ratio being a product of per-mode ratios
+                    (scale-free); returned values against an own left-to-right evaluation with the binary exponent carried
+                    separately; rank 1: the ret_all table is ordered and holds the k largest moduli (merge of the per-mode
+                    ratio tables), up to the moduli that are subnormal at the end of the sweep.  The stabilisation
+                    (orthogonalize(use_stab) -> 2**p, p/d per core) is what makes this hold at 1e-300 for d = 100: p is of the
+                    order of +-1000 and every inexact treatment of it (integer division, rounding) under- or overflows
+                    the work array.  optima_tt is called while every partial product is within 2**+-470; its opposite-side
+                    member is classified against the exact opposite extremum of a rank-1 tensor (sign-parity recursion over
+                    the modes) and reported as open finding `rank1-opposite-side` when sub-optimal, never asserted.
 call histories      sub-check `history` (and the `hist` part of `func`): the routines are pure functions of the VALUES of
                     the cores at the time of the call.  One list object is searched, refilled with another tensor of the
                     same mode sizes (item assignment / slice assignment / clear+extend with new arrays, in-place overwrite
@@ -94,17 +113,23 @@ RULE = ("Hypothesis draws TT specs (d 2..5(6), mode sizes 1..5, rank profiles ra
         "extreme scales: order-one tensors (d 2..5, optionally shifted all-negative / all-positive) times 10**x or 2**x, |x| <= 250 "
         "decades (emphasis on 100..140 and 200..250), factor balanced / first / last / one core / per-core exponents of both signs "
         "with bounded partial sums, any k; optima_qtt on power-of-two mode sizes that are not all equal (d 2..3(5), q 1..3, first and "
-        "last mode equal or not). Oracle = dense enumeration of all entries. Non-trivial = at least two modes of size >= 2 "
+        "last mode equal or not). long chains: d 8..150(200) modes of size 1..4, rank 1 (mode vectors nearly flat 1+-2**-7..-27 / gauss / uniform / "
+        "small integers / dyadic / peaky / half flat half peaky / mixed; positive, negative, mixed signs) or rank 1 with a rank-2 segment "
+        "of 2..3 cores holding a dominant isolated entry (|amp| 3..100, start / middle / end), magnitude 10**x or 2**x, |x| <= 303 decades "
+        "(emphasis on 280..303), balanced / one core / random, ramp and zigzag per-core exponents, k in 1..20, optimum known by construction. "
+        "Oracle = dense enumeration of all entries (long chains: per-mode ratio tables). Non-trivial = at least two modes of size >= 2 "
         "and (some rank >= 2, or tied extremal values, or rank 1 with k < size); functional: >= 2 modes of size >= 3; history: a call "
         "after a refill that changed the values, with k >= size or rank-1 content; "
-        "scaled: the same with |scale| beyond 1e+-90; qtt_shapes: every case; "
+        "scaled: the same with |scale| beyond 1e+-90; qtt_shapes: every case; long: d >= 30; "
         "distinct by SHA-1 of the case.")
 TOLERANCES = ("validity: |y - dense[i]| <= 32*(d+sum r+max n)*eps*E(|cores|)[i] (== on small-integer cores); max-modulus under a "
               "full beam: tau = 9*K*eps*prod||G_k||_F (rank 1: 9*K*eps*max|Y|); opposite extremum: 2*tau + min(sqrt(t), t/(D-tau)), "
               "t = 8*K_Z*eps*prod(||G_k||_F^2 + n_k|y1|^(2/d)); optima_qtt: the same on the QTT image + 2*delta (measured QTT "
               "distance, capped a priori); functional: relative 1e-6 against a 20001-point grid maximum; extreme scales: the same formulas on "
               "the exactly normalised cores M_k = Y_k/2**e_k, values divided exactly by 2**sum(e_k), t with the actual cores of "
-              "teneva.const evaluated in log2")
+              "teneva.const evaluated in log2; long chains: |Y[i]|/max|Y| >= 1 - 16*d*(d+8)*eps (rows compared by the beam carry <= 5j "
+              "relative roundings after j cores) + 9*K_seg*eps*S_T/|T[p]| for a rank-2 segment; values: K*eps*abs-majorant in an own "
+              "scaled evaluation; ret_all order / top-k: relative 2*tol plus the moduli below 2**-1020 (subnormal in the sweep)")
 ASSUMPTIONS = [
     "d >= 2 (library-wide precondition), k >= 1 integer",
     "exactness under a full beam is asserted for k >= number of tensor elements (then k >= every partial index set)",
@@ -124,6 +149,13 @@ ASSUMPTIONS = [
     "extreme scales, optima_tt: called only while every contiguous partial product of cores is within 2**+-470 (~1e+-141): the "
     "routine squares the shifted tensor core by core, beyond about 1e+-154 those squares over- / underflow on the unmodified tree "
     "(measured: exact at 1e+-150, wrong answers / exceptions from 1e+155 and below 1e-160); optima_qtt is not run on scaled tensors",
+    "long chains: max|Y| and every contiguous partial product of the per-core maxima within 2**+-1016 (the drawn path of decimal "
+    "exponents stays in a window of 303 decades holding 0 and x), mode sizes <= 4 and d <= 200 (the best partial product of the "
+    "normalised tensor then decays no faster than the scale 2**(p/d) per core compensates), no zero core; values are compared only "
+    "if every left-to-right prefix product at the returned index is a normal number (teneva.get holds them in floating point)",
+    "long chains, kind `segment` (rank 2 on 1..2 bonds): exactness for k < size is NOT in the property text; it is asserted because it "
+    "follows from the anchored mechanism (beam keeps the rows of largest sub-tensor norm) for a separable chain around a block whose "
+    "dominant entry exceeds twice the Frobenius norm of the rest of the block (derivation in the module docstring)",
     "qtt_shapes: for unequal power-of-two mode sizes the documented outcome is ValueError; 'raises ValueError or returns a valid "
     "answer' is asserted, optimality of a returned answer is not",
 ]
@@ -1234,7 +1266,361 @@ def prop_hidden(case, ctx):
             run_tt(Y, k, ctx, False, None, ret_all=False)
 
 
+# ------------------------------------------------------------------------------------------- long chains (many modes, any scale)
+
+LONG_D = (30, 40, 50, 64, 80, 100, 100, 100, 120, 128, 150, 150)
+LONG_X_TINY = (-303, -303, -302, -301, -300, -300, -298, -295, -292, -290, -285, -280, -270)
+LONG_X_HUGE = (303, 303, 302, 300, 300, 298, 295, 290, 285, 280, 270)
+LONG_X_MID = (-250, -200, -150, -140, -100, -50, 0, 50, 100, 140, 150, 200, 250)
+LONG_DECADES = 303       # the drawn prefix path of decimal exponents lives in a window of this width that holds 0 and x
+LONG_BITS = 1016         # generator invariant: every contiguous partial product of max|core| within 2**+-1016 (~1e+-305.8)
+LONG_FAMS = ("near1", "near1", "near1", "gauss", "float", "smallint", "dyadic", "peaky", "halves", "mixed")
+LONG_AMPS = (3.0, 4.0, 6.0, 10.0, 30.0, 100.0)
+
+
+@st.composite
+def long_cases(draw, tier):
+    """TT-tensors with MANY modes (d 8..150(200), mode sizes 1..4) whose optimum is known by construction, at any representable
+    scale: rank 1 (product of the per-mode extrema) or rank 1 with a short rank-2 segment holding a dominant isolated entry."""
+    d = draw(st.one_of(st.sampled_from(LONG_D), st.sampled_from(LONG_D), st.integers(8, 150 if tier == "quick" else 200)))
+    case = {"d": d, "kind": draw(st.sampled_from(["rank1", "rank1", "rank1", "segment"])), "fam": draw(st.sampled_from(LONG_FAMS)),
+            "seed": draw(gen.seeds), "n": draw(st.sampled_from([2, 3, 3, 4])), "nvar": draw(st.booleans()),
+            "ones": draw(st.integers(0, 5)) == 0, "pert": draw(st.sampled_from([7, 7, 10, 14, 20, 27])),
+            "sign": draw(st.sampled_from(["pos", "pos", "mixed", "neg"])), "k": draw(st.sampled_from([1, 1, 2, 3, 5, 8, 13, 20])),
+            "l2r": draw(st.booleans()),
+            "calls": draw(st.sampled_from(["beam", "beam", "tt_max", "tt_max", "tt_max", "optima_tt", "optima_tt"]))}
+    if case["kind"] == "segment":
+        m = draw(st.integers(2, 3))
+        case["seg"] = {"m": m, "n": [draw(st.integers(2, 3)) for _ in range(m)], "at": draw(st.sampled_from(["start", "mid", "mid", "end"])),
+                       "amp": draw(st.sampled_from(LONG_AMPS)), "sgn": draw(st.sampled_from([-1, 1])),
+                       "lay": draw(st.sampled_from(["bal", "bal", "front"]))}
+    # the stabilisation exponent 2**p matters at the ends of the representable range: half of the cases live there
+    x = draw(st.one_of(st.sampled_from(LONG_X_TINY), st.sampled_from(LONG_X_TINY), st.sampled_from(LONG_X_TINY), st.sampled_from(LONG_X_HUGE),
+                       st.sampled_from(LONG_X_HUGE), st.sampled_from(LONG_X_MID), st.integers(-LONG_DECADES, LONG_DECADES)))
+    sc = {"kind": draw(st.sampled_from(["pow10", "pow10", "pow2"])), "x": x,
+          "lay": draw(st.sampled_from(["bal", "bal", "bal", "bal", "front", "back", "one", "percore", "percore", "ramp", "zigzag"]))}
+    if sc["lay"] in ("one", "ramp"):
+        sc["j"] = draw(st.integers(1, d - 1))
+    if sc["lay"] in ("percore", "ramp", "zigzag"):
+        sc["wa"] = draw(st.sampled_from([0.0, 0.5, 0.5, 1.0]))       # where the free room of the window lies (below / around / above)
+        sc["t"] = draw(st.sampled_from([0.0, 0.25, 0.5, 0.75, 1.0]))  # ramp: height of the peak inside the window; zigzag: amplitude
+    case["sc"] = sc
+    return case
+
+
+def long_vector(rng, fam, n, pert, sign):
+    """One mode vector (length n, not all zero)."""
+    if fam == "near1":                                   # nearly flat: every entry of the tensor is nearly a maximum
+        v = 1.0 + 2.0 ** -pert * rng.uniform(-1, 1, size=n)
+        if sign == "mixed":
+            v = v * rng.choice([-1.0, 1.0], size=n)
+        elif sign == "neg":
+            v = -v
+    elif fam == "gauss":
+        v = rng.normal(size=n)
+    elif fam == "float":
+        v = rng.uniform(-4, 4, size=n)
+    elif fam == "smallint":                              # ties in modulus, zeros
+        v = rng.integers(-3, 4, size=n).astype(float)
+    elif fam == "dyadic":
+        v = rng.integers(-16, 17, size=n) / 8.0
+    else:                                                # peaky: one entry dominates by 2**-3..2**-40
+        v = np.ldexp(rng.uniform(0.5, 1.0, size=n), -rng.integers(3, 41, size=n)) * rng.choice([-1.0, 1.0], size=n)
+        v[rng.integers(0, n)] = 1.0 if sign != "neg" else -1.0
+    if not np.any(v):
+        v[0] = 1.0
+    return v / float(np.max(np.abs(v)))                  # max|v| = 1 exactly: the overall magnitude is carried by the scale alone
+
+
+def long_path(sc, d, rng):
+    """Prefix path P_0 = 0, ..., P_d = x of decimal exponents: core k is multiplied by 10**(P_{k+1} - P_k).
+
+    Every contiguous partial product of the scale factors is 10**(P_j - P_i); the path stays inside a window of width
+    LONG_DECADES that holds 0 and x, so all of them are representable (construction, not rejection)."""
+    x, lay = float(sc["x"]), sc["lay"]
+    room = LONG_DECADES - abs(x)
+    lo = min(0.0, x) - sc.get("wa", 0.5) * room
+    hi = lo + LONG_DECADES
+    lin = np.linspace(0.0, x, d + 1)
+    if lay == "bal":
+        P = lin
+    elif lay in ("front", "back", "one"):
+        j = {"front": 1, "back": d}.get(lay, sc.get("j", 1))
+        P = np.where(np.arange(d + 1) >= j, x, 0.0)
+    elif lay == "percore":
+        P = np.concatenate([[0.0], rng.integers(math.ceil(lo), math.floor(hi) + 1, size=d - 1).astype(float), [x]])
+    elif lay == "ramp":
+        j, h = sc["j"], lo + sc["t"] * (hi - lo)
+        P = np.concatenate([np.linspace(0.0, h, j + 1), np.linspace(h, x, d - j + 1)[1:]])
+    else:                                                # zigzag around the straight line, amplitude within the free room
+        amp = sc["t"] * min(lin.min() - lo, hi - lin.max())
+        P = lin + amp * np.where(np.arange(d + 1) % 2 == 1, 1.0, -1.0)
+        P[0], P[-1] = 0.0, x
+    return P
+
+
+def build_long(case):
+    """-> (cores, (a, b) of the rank-2 segment or None, position of the dominant entry inside the segment)."""
+    d, fam = case["d"], case["fam"]
+    rng = np.random.default_rng(case["seed"])
+    n = [case["n"]] * d
+    if case["nvar"]:
+        n = [int(v) for v in rng.integers(2, case["n"] + 1, size=d)]
+    if case["ones"]:
+        for j in rng.integers(0, d, size=3):
+            n[int(j)] = 1
+    seg, pseg = None, None
+    if case["kind"] == "segment":
+        s = case["seg"]
+        a = {"start": 0, "end": d - s["m"]}.get(s["at"], int(rng.integers(0, d - s["m"] + 1)))
+        seg = (a, a + s["m"] - 1)
+        n[a:a + s["m"]] = s["n"]
+    first_peaky = bool(rng.integers(0, 2))
+    Y = []
+    for k in range(d):
+        f = fam
+        if fam == "halves":                              # flat half and peaky half: the best partial product does not decay evenly
+            f = "peaky" if (k < d // 2) == first_peaky else "near1"
+        elif fam == "mixed":
+            f = ("near1", "gauss", "peaky", "smallint", "float")[int(rng.integers(0, 5))]
+        Y.append(long_vector(rng, f, n[k], case["pert"], case["sign"]).reshape(1, n[k], 1))
+    if seg is not None:
+        # T = a_1 x ... x a_m (unit Frobenius norm) + amp * e_p, |amp| >= 3: |T[p]| >= 2 >= 2 * ||T - T[p] e_p||_F
+        s, m = case["seg"], case["seg"]["m"]
+        pseg = [int(rng.integers(0, q)) for q in s["n"]]
+        for j in range(m):
+            q = s["n"][j]
+            u = rng.normal(size=q)
+            u /= float(np.linalg.norm(u))
+            c = (s["amp"] ** (1.0 / m)) if s["lay"] == "bal" else (s["amp"] if j == 0 else 1.0)
+            if j == m - 1:
+                c *= s["sgn"]
+            G = np.zeros((1 if j == 0 else 2, q, 1 if j == m - 1 else 2))
+            G[0, :, 0] = u
+            G[-1, pseg[j], -1] = c
+            Y[seg[0] + j] = G
+    sc = case["sc"]
+    P = long_path(sc, d, np.random.default_rng(case["seed"] + 1))
+    if sc["kind"] == "pow2":
+        B = np.rint(P * BITS_PER_DECADE).astype(int)
+        Y = [np.ldexp(G, int(B[k + 1] - B[k])) for k, G in enumerate(Y)]
+    else:
+        Y = [G * 10.0 ** float(P[k + 1] - P[k]) for k, G in enumerate(Y)]
+    return Y, seg, pseg
+
+
+def own_get(M, e, i):
+    """Entry at the multi-index i of the TT-tensor with cores M_k * 2**e_k, evaluated left to right with the binary exponent carried
+    separately: (value, abs-majorant) in units of 2**E, E, and the smallest / largest exponent of the prefix products (= what
+    teneva.get holds in floating point on the way)."""
+    q, a, E, lo, hi = np.ones(1), np.ones(1), 0, 0, 0
+    for Mk, ek, ik in zip(M, e, i):
+        q, a = q @ Mk[:, ik, :], a @ np.abs(Mk[:, ik, :])
+        m = float(np.max(a))
+        if m == 0:
+            return 0.0, 0.0, 0, lo, hi
+        f = math.frexp(m)[1]
+        q, a, E = np.ldexp(q, -f), np.ldexp(a, -f), E + ek + f
+        lo, hi = min(lo, E), max(hi, E)
+    return float(q[0]), float(a[0]), E, lo, hi
+
+
+class LongRef:
+    """Reference for a long chain whose max-modulus element is known by construction.
+
+    Outside the segment the tensor is separable: |Y[i]| / max|Y| = prod_k |G_k[i_k]| / max|G_k| (one rounding per mode, no
+    scale involved); the segment contributes |T[i_a..i_b]| / max|T| from its own small dense array (normalised cores).
+    tol (relative): the beam compares computed partial products that carry <= 5*j relative roundings after j cores; a row that
+    displaces the best one is therefore within 10*j*eps of it, over d cores <= 5*d*(d+1)*eps; taken 16*d*(d+8)*eps, plus
+    9*K_seg*eps*S_T/|T[p]| for the normwise error inside the segment (there the decision margin is a factor 2)."""
+
+    def __init__(self, Y, seg, pseg):
+        self.Y, self.d, self.n, self.seg = Y, len(Y), [G.shape[1] for G in Y], seg
+        self.M, self.e = normalise(Y)
+        self.K = K_of(Y)
+        self.rat, self.sgn = [], []
+        for k, G in enumerate(self.M):
+            if seg is not None and seg[0] <= k <= seg[1]:
+                self.rat.append(None), self.sgn.append(None)
+                continue
+            v = G[0, :, 0]
+            self.rat.append(np.abs(v) / float(np.max(np.abs(v))))
+            self.sgn.append(np.sign(v))
+        self.tol = 16.0 * self.d * (self.d + 8) * EPS
+        lg = [math.log2(float(np.max(np.abs(G)))) + ek for G, ek in zip(self.M, self.e)]
+        P = np.concatenate([[0.0], np.cumsum(lg)])
+        self.spread = float(P.max() - P.min())               # binary exponents of all contiguous partial products of max|core|
+        self.L = float(P[-1])                                # log2 of the max-modulus element (segment: up to log2 of a few)
+        self.size = math.prod(self.n)
+        if seg is not None:
+            Ms = self.M[seg[0]:seg[1] + 1]
+            self.T = dense(Ms)
+            self.rseg = np.abs(self.T) / float(np.max(np.abs(self.T)))
+            tp = abs(float(self.T[tuple(pseg)]))
+            rest = math.sqrt(max(float(np.sum(self.T ** 2)) - tp * tp, 0.0))
+            self.seg_ok = tuple(np.unravel_index(int(np.argmax(np.abs(self.T))), self.T.shape)) == tuple(pseg) and tp >= 1.9 * rest
+            self.tol += 9 * K_of(Ms) * EPS * prodnorm(Ms)[1] / tp
+            self.L += math.log2(tp) - sum(math.log2(float(np.max(np.abs(G)))) for G in Ms)
+
+    def ratio(self, i):
+        """|Y[i]| / max|Y|."""
+        r = 1.0
+        for k in range(self.d):
+            if self.rat[k] is not None:
+                r *= float(self.rat[k][i[k]])
+        if self.seg is not None:
+            r *= float(self.rseg[tuple(i[self.seg[0]:self.seg[1] + 1])])
+        return r
+
+    def slack(self):
+        """Entries below 2**-1020 are subnormal inside the beam: their mutual order is not determined (in units of max|Y|)."""
+        ex = -1020.0 - self.L
+        return 1.0 if ex >= 0 else (2.0 ** ex if ex > -1070 else 0.0)
+
+    def top(self, m):
+        """The m largest values of |Y| / max|Y| of a separable tensor (merge mode by mode, keep m)."""
+        T = np.ones(1)
+        for r in self.rat:
+            T = np.sort(np.outer(T, r).ravel())[::-1][:m]
+        return T
+
+
+def long_value(ctx, ref, i, y, what):
+    """Validity: the returned value is the tensor entry at the returned index (own evaluation, exponent carried separately)."""
+    ctx.check(np.ndim(y) == 0 and isinstance(y, (float, np.floating)), f"{what}: value is not a float scalar", got=repr(y))
+    y = float(y)
+    q, a, E, lo, hi = own_get(ref.M, ref.e, i)
+    if lo < -1015 or hi > 1020:
+        ctx.label("long:value_unchecked(prefix product outside the normal range)")
+        return y
+    try:
+        ys = math.ldexp(y, -E)
+    except OverflowError:
+        ys = math.inf
+    ctx.check(np.isfinite(y) and abs(ys - q) <= ref.K * EPS * a, f"{what}: returned value is not the tensor entry at "
+              "the returned index", got=y, ref_mantissa=q, ref_exponent=E, index=list(i))
+    return y
+
+
+def long_best(ctx, ref, ii, what, k):
+    r = ref.ratio(ii)
+    ctx.check(r >= 1 - ref.tol, f"{what}: " + ("rank-1 tensor" if ref.seg is None else "rank-1 chain with a dominant isolated entry") +
+              f" with d={ref.d} modes but the returned index is not a maximum-modulus element", ratio_to_maxmod=r, tol=ref.tol,
+              log2_maxmod=ref.L, k=k, d=ref.d, modes_off=[j for j in range(ref.d) if ref.rat[j] is not None and ref.rat[j][ii[j]] < 1][:12])
+
+
+def long_beam(ctx, Y, ref, k, l2r, ret_all):
+    n, d = ref.n, ref.d
+    what = f"optima_tt_beam(l2r={l2r})"
+    if not ret_all:
+        long_best(ctx, ref, check_index(ctx, ctx.lib(teneva.optima_tt_beam, Y, k, l2r), n, what), what, k)
+        return
+    I = ctx.lib(teneva.optima_tt_beam, Y, k, l2r, True)
+    ctx.check(isinstance(I, np.ndarray) and I.ndim == 2 and I.shape[1] == d and I.dtype.kind in "iu" and I.shape[0] >= 1,
+              f"{what}, ret_all: not a 2-D integer array with d columns", got=repr(getattr(I, "shape", None)))
+    ctx.check(bool(np.all(I >= 0) and np.all(I < np.array(n)[None, :])), f"{what}, ret_all: index out of bounds")
+    ctx.check(len({tuple(r) for r in I.tolist()}) == I.shape[0], f"{what}, ret_all: duplicate multi-indices")
+    long_best(ctx, ref, tuple(int(v) for v in I[0]), what + ", ret_all (first row)", k)     # the single answer is the first row
+    ctx.check(I.shape[0] == expected_rows(n, k, l2r), f"{what}, ret_all: unexpected number of candidates",
+              rows=int(I.shape[0]), expected=expected_rows(n, k, l2r))
+    if ref.seg is None:
+        # separable tensor: the candidates are the entries of largest modulus, best first (see check_beam)
+        vals = np.array([ref.ratio(r) for r in I.tolist()])
+        sl = ref.slack()
+        ctx.check(bool(np.all(vals[:-1] >= vals[1:] * (1 - 2 * ref.tol) - sl)), f"{what}, ret_all: candidates are not ordered by decreasing "
+                  "modulus", ratios=vals.tolist()[:12], tol=ref.tol, slack=sl)
+        best = ref.top(I.shape[0])
+        ctx.check(bool(np.all(np.sort(vals)[::-1] >= best * (1 - 2 * ref.tol) - sl)), f"{what}, ret_all: candidates are not the largest moduli",
+                  ratios=vals.tolist()[:12], best=best.tolist()[:12], tol=ref.tol, slack=sl, k=k)
+
+
+def long_opposite(ref, s):
+    """Rank-1 tensor whose max-modulus element has sign s: the extremum of the other side as (kind, log2 of modulus / max|Y|):
+    the largest modulus among the entries of sign -s, else 0 if some entry vanishes, else the smallest modulus."""
+    with np.errstate(all="ignore"):
+        lg = [np.log2(r) for r in ref.rat]
+    best = {1.0: 0.0, -1.0: -math.inf}                      # largest log-modulus of a partial product of either sign
+    for l, sg in zip(lg, ref.sgn):
+        new = {}
+        for t in (1.0, -1.0):
+            c = [best[t * u] + float(np.max(l[sg == u])) for u in (1.0, -1.0) if np.any(sg == u)]
+            new[t] = max(c) if c else -math.inf
+        best = new
+    if best[-s] > -math.inf:
+        return "sign", best[-s]
+    if any(np.any(sg == 0) for sg in ref.sgn):
+        return "zero", -math.inf
+    return "small", float(sum(float(np.min(l)) for l in lg))
+
+
+def long_optima_tt(ctx, Y, ref, k):
+    n = ref.n
+    out = ctx.lib(teneva.optima_tt, Y, k)
+    ctx.check(isinstance(out, tuple) and len(out) == 4, "optima_tt: not a 4-tuple")
+    i_min, y_min, i_max, y_max = out
+    a = check_index(ctx, i_min, n, "optima_tt(i_min)")
+    b = check_index(ctx, i_max, n, "optima_tt(i_max)")
+    y_min = long_value(ctx, ref, a, y_min, "optima_tt(y_min)")
+    y_max = long_value(ctx, ref, b, y_max, "optima_tt(y_max)")
+    ctx.check(y_min <= y_max, "optima_tt: y_min > y_max", y_min=y_min, y_max=y_max)
+    # one member of the pair is the answer of optima_tt_max: the max-modulus element (= the extremum of its side)
+    ra, rb = ref.ratio(a), ref.ratio(b)
+    big, opp, ybig = (a, b, y_min) if ra >= rb else (b, a, y_max)
+    long_best(ctx, ref, big, "optima_tt (member of larger modulus)", k)
+    if ref.seg is not None:
+        return None
+    s = 1.0 if ybig > 0 else -1.0
+    kind, lt = long_opposite(ref, s)
+    sg = math.prod(float(ref.sgn[j][opp[j]]) for j in range(ref.d))
+    r = ref.ratio(opp)
+    tl = 2 * ref.tol / math.log(2.0)
+    with np.errstate(all="ignore"):
+        lr = float(np.log2(r)) if r > 0 else -math.inf
+    if kind == "sign":
+        ok = sg == -s and lr >= lt - tl
+    elif kind == "zero":
+        ok = sg == 0
+    else:
+        ok = lr <= lt + tl and sg == s
+    if not ok:
+        return (f"optima_tt: rank-1, d={ref.d}, k={k} < size, max-modulus side exact, opposite side sub-optimal: log2(|y|/max|Y|) = {lr!r} "
+                f"(sign {sg:+.0f}), true opposite extremum: {kind} {lt!r}")
+    return None
+
+
+def prop_long(case, ctx):
+    Y, seg, pseg = build_long(case)
+    ref = LongRef(Y, seg, pseg)
+    k, d, sc = case["k"], case["d"], case["sc"]
+    # generator invariants (by construction): finite cores, representable partial products, dominant entry in the segment
+    assert all(np.all(np.isfinite(G)) for G in Y) and ref.spread <= LONG_BITS and abs(ref.L) <= LONG_BITS, (ref.spread, ref.L)
+    assert seg is None or ref.seg_ok
+    calls = case["calls"]
+    do_tt = calls == "optima_tt" and ref.spread <= OPTIMA_TT_BITS
+    ctx.label("long:" + case["kind"], "fam:" + case["fam"], "kind:" + sc["kind"], "lay:" + sc["lay"],
+              "d:%d+" % (30 * (d // 30)), "scale:1e%+d" % (50 * int(round(ref.L / BITS_PER_DECADE / 50))),
+              "k==1" if k == 1 else "k>1", "calls:" + (calls if do_tt or calls != "optima_tt" else "beam(optima_tt out of domain)"))
+    if seg is not None:
+        ctx.label("seg:" + case["seg"]["at"])
+    ctx.nontrivial(d >= 30 and sum(1 for m in ref.n if m >= 2) >= 2)
+    Y0 = [G.copy() for G in Y]
+    if calls == "beam" or (calls == "optima_tt" and not do_tt):
+        for l2r in (True, False):                      # both sweeps, the whole table of candidates
+            long_beam(ctx, Y, ref, k, l2r, True)
+    elif calls == "tt_max":
+        long_beam(ctx, Y, ref, k, case["l2r"], False)  # one sweep, the single answer; then the best of both sweeps
+        i, y = ctx.lib(teneva.optima_tt_max, Y, k)
+        ii = check_index(ctx, i, ref.n, "optima_tt_max")
+        long_value(ctx, ref, ii, y, "optima_tt_max")
+        long_best(ctx, ref, ii, "optima_tt_max", k)
+    known = long_optima_tt(ctx, Y, ref, k) if do_tt else None
+    check_unmodified(ctx, Y, Y0)
+    if known is not None:
+        ctx.known("rank1-opposite-side", known)
+
+
 SUBCHECKS = [
+    Sub("long", prop_long, strategy=long_cases, quick=24, thorough=500),
     Sub("hidden", prop_hidden, strategy=hidden_cases, quick=40, thorough=600),
     Sub("tt", prop_tt, strategy=tt_cases, quick=100, thorough=1500),
     Sub("rank1", prop_tt, strategy=rank1_cases, quick=120, thorough=2000),
